@@ -36,9 +36,12 @@ Allowed(ev, which) ==
        [] ev.lvl = "E" /\ ev.e # <<>> ->
             LET at == Tabs.adj[AdjKey(ev.b, ev.e)]
                 as == AsSet(at[which])
-            IN V2EnvOuterSet(as, ev.t, ev.e)
-                 \cup (IF at.neg \/ (\E x \in as : x < 0) THEN V2EnvOuterSet({0}, ev.t, ev.e) \cup {0} ELSE {})
-NegEq(ev) == ev.lvl = "E" /\ ev.e # <<>> /\ Tabs.adj[AdjKey(ev.b, ev.e)].neg
+                S == V2EnvOuterSet(as, ev.t, ev.e)
+            IN \* a negative adjusted base score is propagated exactly; only where the
+               \* environmental equation ITSELF is negative may the library report 0 instead
+               S \cup (IF \E x \in S : x < 0 THEN {0} ELSE {})
+NegEq(ev) == /\ ev.lvl = "E" /\ ev.e # <<>>
+             /\ \E x \in V2EnvOuterSet(AsSet(Tabs.adj[AdjKey(ev.b, ev.e)].spec), ev.t, ev.e) : x < 0
 
 SetStr(S) == LET q == SetToSeq(S) IN TenthStr(q[1]) \o (IF Len(q) > 1 THEN " or " \o TenthStr(q[2]) ELSE "")
 
@@ -50,15 +53,16 @@ ScoreVerdict(ev) ==
   ELSE "score:expected " \o SetStr(Allowed(ev, "spec")) \o " observed " \o ev.str
 
 OuterVerdict(ev) ==
-  LET S == V2EnvOuterSet({ev.ab}, ev.t, ev.e) \cup (IF ev.ab < 0 THEN V2EnvOuterSet({0}, ev.t, ev.e) \cup {0} ELSE {})
+  LET S0 == V2EnvOuterSet({ev.ab}, ev.t, ev.e)
+      S == S0 \cup (IF \E x \in S0 : x < 0 THEN {0} ELSE {})
   IN IF ev.obs \in S THEN "ok" ELSE "score:outer steps on " \o TenthStr(ev.ab) \o " expected " \o SetStr(S) \o " observed " \o ev.str
 
 GridVerdict(ev) ==
   IF ~WellFormed(ev) THEN "harness:malformed event"
-  ELSE IF NegEq(ev) THEN (IF ev.ex /\ ev.obs \in (-100)..100 /\ ev.str = TenthStr(ev.obs) THEN "ok" ELSE "grid:negative-equation score " \o ev.str)
+  ELSE IF NegEq(ev) THEN (IF ev.ex /\ ev.obs \in (-100)..100 /\ ev.str \in Prints(ev.obs) THEN "ok" ELSE "grid:negative-equation score " \o ev.str)
   ELSE IF ~(ev.obs \in 0..100) THEN "grid:score outside 0.0..10.0: " \o ev.str
   ELSE IF ~ev.ex THEN "grid:score is not a multiple of 0.1: " \o ev.str
-  ELSE IF ev.str # TenthStr(ev.obs) THEN "grid:prints as " \o ev.str
+  ELSE IF ev.str \notin Prints(ev.obs) THEN "grid:prints as " \o ev.str
   ELSE IF ev.sev # V2SeverityBand(ev.obs) THEN "severity:" \o ev.sev \o " for score " \o ev.str
   ELSE "ok"
 
